@@ -72,6 +72,7 @@ FOLLOW = {"benign": "{{#invoke:c07aux|ok|z}}", "raising": "{{#invoke:c07aux|rais
           # finishes well inside the limit but runs long enough (millions of VM instructions) for the limit's hook to fire:
           # a deadline must be counted from the start of this invocation
           "benign_long": "{{#invoke:c07aux|sum|400000}}",
+          "benign_require": "{{#invoke:c07work|checksum|size=10}}",
           # invocations that fail on the Python side of the bridge (module name too long for the file system; a lone surrogate
           # that cannot be encoded for Lua): in-band failure, and the time limit keeps working afterwards
           "python_oserror": "{{#invoke:" + "x" * 5000 + "|ok}}", "python_unicode": "{{#invoke:c07aux\ud800|ok}}"}
@@ -85,10 +86,32 @@ INVOCATION = {
     "function_name_from_invoke": "a{{#invoke:c07prog|{{#invoke:c07aux|fname}}}}b",
     "function_argname_from_invoke": "a{{#invoke:c07prog|run|{{#invoke:c07aux|ok|k}}=v}}b",
     "function_inside_argument_of_invoke": "a{{#invoke:c07aux|ok|{{#invoke:c07prog|run}}}}b",
+    # (the generated program is not used here: the non-terminating part is the load of Module:utilities)
+    "load_of_required_module": "a{{#invoke:c07work|checksum|size=10000000000000}}b",
 }
 
 
+# a module under a name the sandbox keeps loaded across invocations, whose LOADING runs as long as the frame says; it is
+# require()d by another module (the time limit can hit in the middle of the load)
+UTILITIES = """
+local n = tonumber(mw.getCurrentFrame().args.size) or 10
+local s = 0
+local i = 0
+while i < n do i = i + 1 s = s + i end
+return { sum = s }
+"""
+WORK = "local e = {}\nfunction e.checksum(frame) local u = require('Module:utilities') return 'sum=' .. u.sum end\nreturn e\n"
+
+
+def add_aux(ctx):
+    ctx.add_page("Module:c07aux", 828, AUX, model="Scribunto")
+    ctx.add_page("Module:utilities", 828, UTILITIES, model="Scribunto")
+    ctx.add_page("Module:c07work", 828, WORK, model="Scribunto")
+
+
 def module_text(body, wrapper, position):
+    if position.startswith("function_") or position == "load_of_required_module":
+        position = "function"
     if position.startswith("function_"):
         position = "function"
     w = WRAPPERS[wrapper]
@@ -100,9 +123,9 @@ def module_text(body, wrapper, position):
 
 def fresh_results():
     ctx = new_ctx(lua=True)
-    ctx.add_page("Module:c07aux", 828, AUX, model="Scribunto")
+    add_aux(ctx)
     out = {}
-    for k in ("benign", "raising", "guarded", "benign_long"):
+    for k in ("benign", "raising", "guarded", "benign_long", "benign_require"):
         ctx.start_page("Tt")
         out[k] = ctx.expand(FOLLOW[k], timeout=LIMIT)
     close_ctx(ctx)
@@ -122,7 +145,7 @@ def work(payload, skip, report):
     fresh = fresh_results()
     report(0)
     ctx = new_ctx(lua=True)
-    ctx.add_page("Module:c07aux", 828, AUX, model="Scribunto")
+    add_aux(ctx)
     ctx.add_page("Module:c07prog", 828, module_text(body, wrapper, position), model="Scribunto")
     ctx.add_page("Template:c07t", 10, "[{{#if:1|{{{1|}}}}}]")
     ctx.start_page("Tt")
@@ -137,7 +160,7 @@ def work(payload, skip, report):
         # a small overshoot can be scheduling delay on a loaded machine: measure once more on a fresh context and keep the
         # smaller time (a real defect overshoots every time)
         ctx2 = new_ctx(lua=True)
-        ctx2.add_page("Module:c07aux", 828, AUX, model="Scribunto")
+        add_aux(ctx2)
         ctx2.add_page("Module:c07prog", 828, module_text(body, wrapper, position), model="Scribunto")
         ctx2.add_page("Template:c07t", 10, "[{{#if:1|{{{1|}}}}}]")
         ctx2.start_page("Tt")
@@ -201,6 +224,8 @@ def main(run):
         for lim in (0.5, 0.25, 1.5, 2):
             chunks.append(("while", "none", "function", ("benign",), lim))
             chunks.append(("while", "pcall", "function", ("benign_long",), lim))
+        chunks.append(("while", "none", "load_of_required_module", ("benign_require", "benign")))
+        chunks.append(("while", "none", "function", ("benign_require", "timing_out", "benign_require")))
         chunks.append(("while", "none", "function", ("python_oserror", "timing_out", "benign")))
         chunks.append(("while", "pcall", "function", ("python_unicode", "timing_out", "guarded")))
         chunks.append(("nested_inner_loop", "none", "function", ("python_oserror", "timing_out")))
@@ -222,6 +247,9 @@ def main(run):
             for b, w in itertools.product(("while", "nested_inner_loop", "preprocess_invoke"), ("none", "pcall", "xpcall")):
                 if w in WRAPPERS and b in BODIES:
                     chunks.append((b, w, pos, ("benign", "timing_out")))
+    if not q:
+        for fo in (("benign_require",), ("benign_require", "benign"), ("timing_out", "benign_require"), ("raising", "benign_require")):
+            chunks.append(("while", "none", "load_of_required_module", fo))
     for cid, acc, hung in run_chunks(work, chunks, nproc=run.nproc, case_timeout=12):
         run.acc.merge(acc)
     cov = {
